@@ -284,6 +284,12 @@ def _dunder_checks(idx: Index, res: Result) -> int:
                 ok = len(args) == 3 and args[2].strip("'\"") == CMP_SIGN[name]
                 res.check("ORDER", "%s.%s passes the sign %s" % (cname, name, CMP_SIGN[name]), ok, fi.loc(), fi.qual, src(call),
                           "%s.%s builds a comparison with sign %s" % (cname, name, args[2:] or "?"), key="ORDER/%s.%s/sign" % (cname, name))
+        # the six rich comparisons are methods of the class, each with its own sign (hooks installed some other way - generated in a
+        # loop, assigned from lambdas - cannot be shown to pass the right sign)
+        for hook in sorted(CMP_SIGN):
+            res.check("ORDER", "%s defines %s" % (cname, hook), hook in ci.methods, "%s:%d" % (rel, ci.node.lineno), cname, hook,
+                      "%s.%s is not defined as a method of the class: the comparison it builds (and its sign) cannot be read off the class"
+                      % (cname, hook), key="ORDER/%s.%s/not-a-method" % (cname, hook))
         # unary minus: (-1) * self
         neg = ci.methods.get("__neg__")
         if neg:
@@ -447,6 +453,8 @@ def check_c02(idx: Index, tier: str, res: Result) -> None:
     res.floor("operator-identity instances", nid, 40)
     nd = _dunder_checks(idx, res)
     res.floor("operator dunders on Element/Operator", nd, 30)
+    from ..util import closure_sweep
+    closure_sweep(idx, res, "ORDER", ["BPTK_Py/sddsl/"])
     # array aggregates refer to their members (late bound), they never splice a member's current number
     _r2(idx, res, [r for r in renderers if r.cls in vocab], floor=40)
     nt = _operand_truth(idx, res)
@@ -767,10 +775,15 @@ def sweep_loop(idx: Index):
     lp, rng = loops[0]
     eqp = params(sim.node)[1]
     stores = []
+    # a local series that becomes the equation's row afterwards (series = {} ... self.results[equation] = series) is that row
+    later_rows = {n.value.id for n in walk_no_nested(sim.node) if isinstance(n, ast.Assign) and isinstance(n.value, ast.Name)
+                  and isinstance(n.targets[0], ast.Subscript) and dotted(n.targets[0].value) == "self.results" and src(n.targets[0].slice) == eqp}
     for n in ast.walk(lp):
         if isinstance(n, ast.Assign) and isinstance(n.targets[0], ast.Subscript):
             row = table_row_of(sim.node, n.targets[0].value)
             if row and row[0] == "self.results" and src(row[1]) == eqp:
+                stores.append(n)
+            elif isinstance(n.targets[0].value, ast.Name) and n.targets[0].value.id in later_rows:
                 stores.append(n)
     return sim, lp, rng, lp.target.id, stores
 
@@ -783,7 +796,9 @@ def _sweep(idx: Index, res: Result) -> None:
               and src(args[2]) == "self.mod.dt", sim.loc(lp), sim.qual, src(rng),
               "the sweep is %s" % src(rng), key="SWEEP/__simulate/range")
     ev = [c for c in iter_calls(lp) if call_name(c) == "equation" and (dotted(c.func.value) or "") == "self.mod"]
-    ok = len(ev) == 1 and [src(a) for a in ev[0].args] == [ps[1], v]
+    # one evaluation per grid time - written once, or once in each branch of a case distinction (plain / '*' equations)
+    ok = len(ev) >= 1 and all([src(a) for a in c.args] == [ps[1], v] for c in ev) and (len(ev) == 1 or all(
+        any(isinstance(g, ast.If) and any(x is c for b in (g.body if k == 0 else g.orelse) for x in ast.walk(b)) for g in ast.walk(lp) for k in (0, 1)) for c in ev))
     res.check("SWEEP", "each grid time is evaluated once: mod.equation(name, i)", ok, sim.loc(lp), sim.qual, src(ev[0]) if ev else "",
               "the sweep does not evaluate the requested equation at the loop time", key="SWEEP/__simulate/evaluate")
     # the value variable: what mod.equation(...) was assigned to
@@ -792,7 +807,8 @@ def _sweep(idx: Index, res: Result) -> None:
     for _ in range(3):     # values derived from it (sum(result) for the '*' equations, a renamed copy)
         valvars |= {n.targets[0].id for n in ast.walk(lp) if isinstance(n, ast.Assign) and isinstance(n.targets[0], ast.Name)
                     and {x.id for x in ast.walk(n.value) if isinstance(x, ast.Name)} & valvars}
-    ok = len(stores) == 1 and src(stores[0].targets[0].slice) == v and isinstance(stores[0].value, ast.Name) and stores[0].value.id in valvars
+    ok = len(stores) >= 1 and all(src(st_.targets[0].slice) == v and (
+        (isinstance(st_.value, ast.Name) and st_.value.id in valvars) or any(c is x for c in ev for x in ast.walk(st_.value))) for st_ in stores)
     res.check("SWEEP", "the value is stored under the time it was evaluated at", ok, sim.loc(stores[0]) if stores else sim.loc(), sim.qual,
               norm_stmt(stores[0]) if stores else "", "the result table is keyed by %s, the value was evaluated at %s"
               % (src(stores[0].targets[0].slice) if stores else "?", v), key="SWEEP/__simulate/store-key")
